@@ -11,6 +11,7 @@ from ..lang.ast import (
 )
 from ..schema import Schema
 from .collect_fields import collect_fields_untyped
+from .untyped_value_from_ast import untyped_value_from_ast
 
 
 def _selections_depth(
@@ -104,8 +105,21 @@ class MaxDepthValidationRule:
             ):
                 continue
 
+            # Variables left out of the payload take the default value of
+            # their definition (they may drive @skip / @include).
+            op_variables = dict(variables)
+            for var_def in op.variable_definitions:
+                var_name = var_def.variable.name.value
+                if (
+                    var_name not in op_variables
+                    and var_def.default_value is not None
+                ):
+                    op_variables[var_name] = untyped_value_from_ast(
+                        var_def.default_value
+                    )
+
             depth = _selections_depth(
-                op.selection_set.selections, fragments, variables
+                op.selection_set.selections, fragments, op_variables
             )
 
             if depth > self.max_depth:
